@@ -43,7 +43,7 @@ func LoadProgram() (*Prog, error) {
 	}
 	prog, spkgs := ssautil.Packages(pkgs, ssa.InstantiateGenerics|ssa.GlobalDebug)
 	prog.Build()
-	p := &Prog{astPkgs: pkgs, fset: prog.Fset, prog: prog, strIDs: map[string]int{}, errIDs: map[string]int{}, funcs: map[string]*ssa.Function{}, loopCache: map[*ssa.Function]*LoopSet{}, globalZero: map[*ssa.Global]bool{}, ordCache: map[*ssa.Function]map[ssa.Instruction]int{}}
+	p := &Prog{astPkgs: pkgs, fset: prog.Fset, prog: prog, strIDs: map[string]int{}, errIDs: map[string]int{}, funcs: map[string]*ssa.Function{}, loopCache: map[*ssa.Function]*LoopSet{}, globalZero: map[*ssa.Global]bool{}, ordCache: map[*ssa.Function]map[ssa.Instruction]int{}, staleContracts: map[string]bool{}}
 	var dirs []string
 	for i, sp := range spkgs {
 		if sp == nil {
